@@ -146,7 +146,10 @@ def frag_field_cases(ctx):
     for j, (n, reqs) in enumerate([(8200, [("tail", 185), ("tail", 0), ("fragment", 0, 8192), ("fragment", 1000, 8200)]),
                                    (20, [("fragment", 0, 1), ("fragment", 1, 1), ("tail", 2), ("datagram",), ("tail", 0), ("fragment", 0, 3)]),
                                    (43, [("tail", 0), ("tail", 5), ("fragment", 2, 2)]),
-                                   (17000, [("tail", 2000), ("fragment", 2100, 40)])]):
+                                   (17000, [("tail", 2000), ("fragment", 2100, 40)]),
+                                   # requests that start beyond the end of the payload: an empty fragment AT THE REQUESTED OFFSET
+                                   (20, [("tail", 5), ("fragment", 9, 1), ("fragment", 100, 3), ("fragment", 3, 0), ("tail", 8191)]),
+                                   (0, [("tail", 1), ("fragment", 7, 2), ("datagram",)])]):
         payload = bytes(r.getrandbits(8) for _ in range(n))
         c = c07.frag_case("g%d" % j, r, payload, reqs, {"src": ip("10.0.0.1"), "dst": ip("10.0.0.2"), "id": 300 + j,
                                                          "df": j % 2 == 0, "evil": j % 3 == 0}, None)
